@@ -491,7 +491,8 @@ def main(args):
     rnames = ['attach-2-of-3', 'attach-3-of-4', 'skin+ins', 'report-options'] if ck.tier == 'thorough' else ['attach-2-of-3', 'skin+ins', 'report-options']
     parts += [('run_to_run', ([n],)) for n in rnames]
     parts += [('far_history', ('G14', 'one')), ('far_history', ('G7', 'radials'))]
-    fseqs = [('c', 'c'), ('c', 'f2', 'c'), ('c', 'n', 'f2', 'c', 'n'), ('c', 'f3', 'c')]
+    # f3: below the small-radius limit of the 2 mm wires; the limit is crossed downwards (f1 -> f3), upwards (f3 -> f1) and there and back
+    fseqs = [('c', 'c'), ('c', 'f2', 'c'), ('c', 'n', 'f2', 'c', 'n'), ('c', 'f3', 'c'), ('f3', 'c', 'f1', 'c'), ('c', 'f3', 'c', 'n', 'f1', 'c', 'n')]
     fgeo = ('G8', 'G2') if ck.tier == 'quick' else ('G8', 'G2', 'G9', 'G16', 'G11')
     parts += [('fill_history', (g, sq)) for g in fgeo for sq in fseqs]
     from .common import run_parallel
